@@ -30,6 +30,8 @@ Typed reader (`TFn`, growth round: decision tables and row masks -- `Generated/E
 * `df["col"] = e` sets the column, `df.loc[mask, "col"] = e` is `col := if mask then e else col` -- later statements
   override earlier ones in source order; `if c: ...` without a return merges every local / column as `if c then .. else ..`;
   `return df` is the tuple of the declared result columns;
+* truthiness of a string parameter is `!= ""` (an absent option, `None`, is read as the empty string); `logging.*(..)`
+  statements are skipped;
 * `a, b = params.TABLE[key]["NAME"]` binds the Int parameters `a`, `b` (values of a table the constants extractor reads);
   the `"NAME"`s are recorded in `<name>_lookups`.
 
@@ -437,6 +439,8 @@ class TFn:
                 left = right
             return parts[0] if len(parts) == 1 else "(" + " && ".join(parts) + ")"
         x, t = self.expr(e, st)
+        if t == "String":
+            return f"({x} != \"\")"          # truthiness of a string (None is read as the empty string)
         if t != "Bool":
             raise Untranslatable("truthiness of a " + t + ": " + ast.unparse(e))
         return x
@@ -457,6 +461,8 @@ class TFn:
             if isinstance(s, ast.Expr) and isinstance(s.value, ast.Constant):
                 continue
             if isinstance(s, ast.Assert):
+                continue
+            if isinstance(s, ast.Expr) and isinstance(s.value, ast.Call) and ast.unparse(s.value.func).startswith("logging."):
                 continue
             if isinstance(s, ast.Return):
                 if isinstance(s.value, ast.Name) and s.value.id == self.table:
@@ -663,3 +669,21 @@ def scan_rows(fn, callees, lean_name, params, opaque, comment=None):
         f"/-- the opaque calls whose results `{lean_name}` reads as parameters -/",
         f"def {lean_name}_calls : List String := [" + ", ".join(json.dumps(c) for c in calls) + "]",
     ])
+
+
+def guard_condition(fn, exc_name, rename_attr_of=("args",)):
+    """the test of the first `if TEST: raise <exc_name>(...)` of `fn`, as a Lean Prop over Rat parameters (`args.x` is
+    the parameter `x`) -> (text, params)"""
+    import copy
+
+    class A(ast.NodeTransformer):
+        def visit_Attribute(self, node):
+            if isinstance(node.value, ast.Name) and node.value.id in rename_attr_of:
+                return ast.copy_location(ast.Name(id=node.attr, ctx=node.ctx), node)
+            return self.generic_visit(node)
+    for s in fn.body:
+        if isinstance(s, ast.If) and not s.orelse and len(s.body) == 1 and isinstance(s.body[0], ast.Raise) \
+                and exc_name in ast.unparse(s.body[0]):
+            tr = Fn(fn)
+            return tr.cond(A().visit(copy.deepcopy(s.test)), {}), list(tr.params)
+    raise Untranslatable(f"no `if ...: raise {exc_name}` guard")
